@@ -372,7 +372,7 @@ func applyOp(s stackage.Stack, op string) string {
 			// the whole configuration record (kind, capacity, options, texts, error) and which policies are present
 			st := stackage.VerifDump(s)
 			bits := ""
-			for _, f := range []uintptr{st.Ppf, st.Vpf, st.Rpf, st.Eqf, st.Umf, st.Maf, st.Evl} {
+			for _, f := range []uintptr{st.Ppf, st.Vpf, st.Rpf, st.Eqf, st.Umf, st.Maf, st.Evl, st.Lss} {
 				bits += b01(f != 0)
 			}
 			return "D{" + cfgOf(st).String() + "}P" + bits
@@ -778,6 +778,9 @@ func genResets(r *rand.Rand, id string, tier string) string {
 	}
 	if r.Intn(6) == 0 {
 		c.Eqf = 1 + r.Intn(2)
+	}
+	if r.Intn(3) == 0 {
+		c.Lss = 1
 	}
 	n0 := r.Intn(k + 1)
 	st := genStackLit(r, c, n0, true)
